@@ -2,15 +2,21 @@
 (* C10: every row of every shipped table (dumped from the working tree's tables.rs) is judged by TLC. *)
 EXTENDS Integers, Sequences, FiniteSets, TLC, Json, IOUtils, F64, QuadTables
 Obs == ndJsonDeserialize(IOEnv.VH_OBS)
-RelG == FOfDec(IOEnv.VH_RELG)
+\* "exactly (up to rounding)": the families on [-1, 1] (Legendre, both Chebyshev kinds) have moments that no power of a
+\* node amplifies - their shipped rows meet every moment to 1e-13 - and are held to RelB; in the families on unbounded
+\* domains the high moments are carried by the outermost nodes raised to powers up to 2n - 1, and the shipped digits leave
+\* residuals up to 4e-11 there (Hermite 27, Laguerre 12): those are held to RelG
+RelU == FOfDec(IOEnv.VH_RELG)
+RelB == FOfDec(IOEnv.VH_RELB)
+RelOf(tb) == IF tb \in {"hermite", "laguerre"} THEN RelU ELSE RelB
 RelDE == FOfDec(IOEnv.VH_RELDE)
-Check(o) == IF o.table = "tanhsinh" THEN DEBad(o.row, o.pairs, RelDE) ELSE GaussBad(o.table, o.row, o.pairs, RelG)
+Check(o) == IF o.table = "tanhsinh" THEN DEBad(o.row, o.pairs, RelDE) ELSE GaussBad(o.table, o.row, o.pairs, RelOf(o.table))
 VARIABLE i
 Init == i = 0
 Next == /\ i < Len(Obs)
         /\ i' = i + 1
         /\ \E bad \in {Check(Obs[i + 1])} : bad # {} =>
               PrintT(<<"VIOL", i + 1, bad, IF Obs[i + 1].table = "tanhsinh" THEN -1
-                                           ELSE FirstBadMoment(Obs[i + 1].table, Obs[i + 1].row, Obs[i + 1].pairs, RelG)>>)
+                                           ELSE FirstBadMoment(Obs[i + 1].table, Obs[i + 1].row, Obs[i + 1].pairs, RelOf(Obs[i + 1].table))>>)
         /\ (i' = Len(Obs)) => PrintT(<<"CHECKED", Len(Obs)>>)
 =============================================================================
